@@ -39,9 +39,11 @@ package push
 // modelled by the ghost dictionaries of the sync.Map contracts (sequential view per operation).
 
 // (assumed) waking the poller: may move messages from caches to a responder, never adds any
+//@ ghost woken int
 //@ func (*Broker).response
 //@   havoc
 //@   modifies ghost.*
+//@   ensures ghost.woken == old(ghost.woken) + 1
 
 //@ func (*Broker).Unicast
 //@   prop C19
@@ -59,3 +61,44 @@ package push
 //@   atcall response [the_right_poller_is_woken] arg2 == id
 //@   ensures [accepted_iff_subscribed_and_not_denied] result == (old(ghost.sm_has[addr(b.messages)][str(id)]) && old(ghost.sm_has[T][str(topic)]) && old(ghost.sm_val[T][str(topic)]) != nil)
 //@   ensures [a_refused_message_is_stored_nowhere] !result ==> len(C.m) == old(len(C.m))
+//@   ensures [the_poller_is_woken_once_per_accepted_message] ghost.woken == old(ghost.woken) + ite(result, 1, 0)
+
+// ---- polling: a poll that gives up must not leave its responder behind --------------------------
+//
+// A responder registered in b.responders is where the next accepted message is sent (response
+// pops it and sends the batch). A poll that returns WITHOUT having received from its responder
+// (the time-out arm) must therefore have taken the responder back: otherwise the next batch is
+// sent into a channel nobody reads and is lost, although the publisher was told `true`.
+
+// (assumed) the client id of the request: reads the context only (panics when there is none)
+//@ func (*Broker).ID
+//@   modifies nothing
+
+// (assumed) collects what the caches of `id` hold and sends it as ONE batch on `responder`, or
+// reports false having sent nothing; it does not touch the responder registry
+//@ func (*Broker).send
+//@   havoc
+//@   modifies ghost.sm_has[*], ghost.sm_val[*], ghost.chansent[responder], ghost.chanlen[responder], ghost.spawned
+//@   ensures result ==> ghost.chansent[responder] == old(ghost.chansent[responder]) + 1
+//@   ensures !result ==> ghost.chansent[responder] == old(ghost.chansent[responder])
+
+//@ func (*Broker).doHeartBeat
+//@   havoc
+//@   modifies ghost.*
+
+// the callbacks handed to Upsert return the new value (the cmap contract relies on it)
+//@ func (*Broker).message$1
+//@   prop C19
+//@   flag typeassert=panic
+//@   havoc
+//@   modifies ghost.chansent[*], ghost.chanlen[*]
+//@   ensures [stores_the_new_responder] same(result, newValue)
+
+//@ func (*Broker).message
+//@   prop C19
+//@   flag typeassert=panic
+//@   havoc
+//@   requires b != nil
+//@   modifies ghost.*
+//@   ensures [a_poll_that_gives_up_does_not_leave_its_responder_registered] ghost.chanrecv[responder] == 0 ==>
+//@       !(ghost.cm_has[arr(b.responders)][str(id)] && ival(ghost.cm_val[arr(b.responders)][str(id)]) == responder)
